@@ -599,6 +599,38 @@ theorem g2_mstep (db : DB) (N : Nat) (op : MOp) (h : Good2 db N) (ha : ∀ a, op
       · exact hl
       · exact g2_setObj _ N a _ _ hl (ha a rfl) rfl
     · exact hl
+  | createAccount a =>
+    have hl := g2_load db N a h (ha a rfl)
+    simp only [mstep, MOp.addr, mstepCore]
+    cases hget : (db.load a).get a with
+    | none => exact g2_setObj _ N a _ _ hl (ha a rfl) rfl
+    | some prev =>
+      simp only
+      have haN := ha a rfl
+      refine ⟨?_, ?_⟩
+      · intro b hb
+        have hba : b ≠ a := by omega
+        simp only [DB.setObj, DB.push, upd, hba, if_false]
+        exact hl.cb b hb
+      · intro b ob hob hd
+        have hdirt : ((DB.push (db.load a) (.reset a prev)).setObj a
+            { bal := prev.bal, nonce := 0, suicided := false, stor := (db.load a).k.store a }).dirties = (db.load a).dirties := by
+          simp [DB.setObj, DB.push, Entry.dirtied]
+        rw [hdirt] at hd
+        show (db.load a).k.exist b = true
+        by_cases hba : b = a
+        · subst hba
+          -- the previous object was cached (load) and clean, hence belongs to an existing account
+          simp only [DB.get] at hget
+          cases hobj : (db.load b).objs b with
+          | some o => exact hl.ce b o hobj hd
+          | none =>
+            simp only [hobj] at hget
+            by_cases he : (db.load b).k.exist b = true
+            · exact he
+            · simp [he] at hget
+        · simp only [DB.setObj, DB.push, upd, hba, if_false] at hob
+          exact hl.ce b ob hob hd
   | setRefund v => exact ⟨h.cb, h.ce⟩
   | addLog => exact ⟨h.cb, h.ce⟩
   | suicide a =>
